@@ -1159,8 +1159,8 @@ class C13(WireCfg):
 
 
 class C14(WireCfg):
-    lean = WireCfg.lean + ["Props.C14", "Audit.C14", "Props.C17", "Audit.C17"]
-    audit = ["C14", "C17"]
+    lean = WireCfg.lean + ["Props.C14", "Audit.C14", "Props.C14pipe", "Audit.C14pipe", "Props.C17", "Audit.C17"]
+    audit = ["C14", "C14pipe", "C17"]
     wire_streams = [("malformed", 6, 60, 100), ("pool", 6, 20, 200), ("multi", 4, 60, 100)]
     listed = set()
     rule = ("every supported and unsupported command name x argument vectors of length 0..3 over a pool of hostile tokens (exhaustive for short vectors), "
